@@ -115,6 +115,15 @@ func runEvalCase(c evalCase) *core.Failure {
 		earlier = qf.Eval("zfirst", qframe.Val(types.ColumnName("i2")))
 		earlierObs = model.Observe(earlier).String() + fmt.Sprint(earlier.ColumnNames())
 	}
+	if c.Style == "expr" {
+		// the same expression OBJECT is first evaluated under the other context (its result is dropped):
+		// an expression is a value, evaluating it must not bind it to a context
+		if c.User {
+			_ = qf.Eval(c.Dst, expr)
+		} else {
+			_ = qf.Eval(c.Dst, expr, eval.EvalContext(env.user))
+		}
+	}
 	got := model.Observe(qf.Eval(c.Dst, expr, fns...))
 	if earlierObs != "" {
 		if now := model.Observe(earlier).String() + fmt.Sprint(earlier.ColumnNames()); now != earlierObs {
